@@ -2,3 +2,5 @@ import MocModel.Basic
 import MocModel.Wire
 import MocModel.Matcher
 import MocModel.Spec.Nip01
+import MocModel.Middleware
+import MocModel.Spec.Mw
